@@ -42,6 +42,7 @@ import (
 	"github.com/ethereum/go-ethereum/crypto/keccak"
 	"github.com/ethereum/go-ethereum/internal/verif/mc"
 	"github.com/ethereum/go-ethereum/rlp"
+	"github.com/golang/snappy"
 )
 
 // ---------------------------------------------------------------------------------------------------
@@ -767,6 +768,147 @@ func TestVerif_C44(t *testing.T) {
 		// handshake packets carrying invalid curve points
 		c44InvalidPoints(r)
 		c44CraftedPoints(r)
+
+		// payload sizes on both sides of every boundary, in every compression mode
+		c44SizeBoundary(r)
+	})
+}
+
+// c44IntSize: RLP size of an unsigned integer (single byte below 0x80, else length prefix + big-endian bytes).
+func c44IntSize(v uint64) int {
+	if v < 0x80 {
+		return 1
+	}
+	n := 0
+	for ; v > 0; v >>= 8 {
+		n++
+	}
+	return 1 + n
+}
+
+// c44SizeBoundary: one message per session over the frame layer, plain payload sizes on both sides of every
+// boundary (empty, AES block / frame padding, 16-bit, and the 24-bit limit for the payload and for the frame)
+// x {no compression, snappy with compressible data, snappy with incompressible data} x codes {0, 2^64-1}.
+// Reference: a message is within the limit iff its plain size is <= 2^24-1 and RLP(code) plus the bytes that
+// go on the wire (plain, or snappy-compressed) fit into a 24-bit frame size. Within the limit it must be written
+// and delivered intact with the right code and wire size; otherwise it must never be delivered (Write or Read
+// report an error), in particular not truncated.
+func c44SizeBoundary(r *mc.R) {
+	const lim = maxUint24
+	compBuf := c44Payload(lim+2, true)
+	randBuf := c44Payload(lim+2, false)
+	// incompressible payload whose compressed frame is exactly at the limit (for code 0), found by bisection
+	// on the (monotone) length of the snappy encoding
+	atLimit := func(code uint64) int {
+		lo, hi := lim-4096, lim
+		for lo < hi {
+			mid := (lo + hi + 1) / 2
+			if c44IntSize(code)+len(snappy.Encode(nil, randBuf[:mid])) <= lim {
+				lo = mid
+			} else {
+				hi = mid - 1
+			}
+		}
+		return lo
+	}
+	small := []int{0, 1, 15, 16, 17, 31, 32, 33, 255, 256, 65535, 65536, 65537}
+	type sz struct {
+		n    int
+		code uint64
+		mode string // "off", "snappy-compressible", "snappy-incompressible"
+	}
+	var cases []sz
+	modes := []string{"off", "snappy-compressible", "snappy-incompressible"}
+	for _, mode := range modes {
+		for _, n := range small {
+			for _, code := range []uint64{0, ^uint64(0)} {
+				cases = append(cases, sz{n, code, mode})
+			}
+		}
+		// the 24-bit limit of the plain payload: always in the quick tier
+		for _, n := range []int{lim - 1, lim, lim + 1} {
+			cases = append(cases, sz{n, 0, mode})
+		}
+	}
+	// the 24-bit limit of the frame (RLP(code) + wire bytes)
+	n0 := atLimit(0)
+	cases = append(cases,
+		sz{lim - 9, ^uint64(0), "off"}, sz{lim - 8, ^uint64(0), "off"},
+		sz{n0, 0, "snappy-incompressible"}, sz{n0 + 1, 0, "snappy-incompressible"})
+	if r.Thorough() {
+		n9 := atLimit(^uint64(0))
+		for _, mode := range modes {
+			for _, n := range []int{lim - 17, lim - 16, lim - 15, lim - 10, lim - 9, lim - 8, lim - 2, lim - 1, lim, lim + 1} {
+				cases = append(cases, sz{n, ^uint64(0), mode}, sz{n, 1 << 32, mode})
+			}
+			for _, n := range []int{lim - 17, lim - 16, lim - 15, lim - 2} {
+				cases = append(cases, sz{n, 0, mode})
+			}
+		}
+		cases = append(cases, sz{n0 - 1, 0, "snappy-incompressible"}, sz{n9 - 1, ^uint64(0), "snappy-incompressible"},
+			sz{n9, ^uint64(0), "snappy-incompressible"}, sz{n9 + 1, ^uint64(0), "snappy-incompressible"})
+	}
+	r.Bound("size_boundary.cases", len(cases))
+	r.Bound("size_boundary.incompressible_frame_at_limit_plain_size", n0)
+	// large cases hold several 16 MiB buffers each: at most 3 at a time
+	sem := make(chan struct{}, 3)
+	r.Parallel(len(cases), func(i int) {
+		cs := cases[i]
+		if cs.n > 1<<20 {
+			sem <- struct{}{}
+			defer func() { <-sem }()
+		}
+		buf := compBuf
+		if cs.mode == "snappy-incompressible" {
+			buf = randBuf
+		}
+		plain := buf[:cs.n]
+		wireLen := cs.n
+		if cs.mode != "off" {
+			wireLen = len(snappy.Encode(nil, plain))
+		}
+		within := cs.n <= lim && c44IntSize(cs.code)+wireLen <= lim
+		c := map[string]any{"part": "size", "plain_bytes": cs.n, "code": fmt.Sprint(cs.code), "mode": cs.mode}
+		r.Case(c, func() error {
+			cfg := &c44Session{snappy: cs.mode != "off", send: [2][]c44Msg{{{cs.code, plain}}, nil}}
+			res, _ := cfg.run()
+			w, rd := res[0], res[1]
+			if w.panic != "" || rd.panic != "" {
+				return fmt.Errorf("panic: %s%s", w.panic, rd.panic)
+			}
+			if within {
+				if w.wErr != nil {
+					return fmt.Errorf("message of %d plain bytes (%d on the wire, code %d, %s) is within the 24-bit limits but Write refused it: %v", cs.n, wireLen, cs.code, cs.mode, w.wErr)
+				}
+				if rd.readErr != nil {
+					return fmt.Errorf("message of %d plain bytes (%d on the wire, code %d, %s) was written but not delivered: Read returned %v", cs.n, wireLen, cs.code, cs.mode, rd.readErr)
+				}
+				if err := c44SameMsgs(rd.got, cfg.send[0]); err != nil {
+					return err
+				}
+				if rd.wire[0] != wireLen || int(w.wsizes[0]) != wireLen {
+					return fmt.Errorf("wire size reported as %d (reader) / %d (writer), %d bytes were framed", rd.wire[0], w.wsizes[0], wireLen)
+				}
+				r.Outcome("size:" + cs.mode + ":delivered")
+				return nil
+			}
+			if len(rd.got) != 0 {
+				return fmt.Errorf("message of %d plain bytes (%d on the wire, code %d, %s) exceeds the limit but %d bytes were delivered", cs.n, wireLen, cs.code, cs.mode, len(rd.got[0].data))
+			}
+			if w.wErr == nil && rd.readErr == nil {
+				return fmt.Errorf("over-limit message neither refused nor delivered")
+			}
+			if w.wErr != nil {
+				r.Outcome("size:" + cs.mode + ":refused-by-write")
+			} else {
+				r.Outcome("size:" + cs.mode + ":refused-by-read")
+			}
+			return nil
+		})
+		r.DistinctHash(mc.Hash64(fmt.Sprint("sz", cs)))
+		if cs.n >= lim-1 && cs.code == 0 {
+			r.Sample(c)
+		}
 	})
 }
 
